@@ -79,6 +79,12 @@ impl TerminateDriverFlyweight {
         unsafe { TERMINATE_DRIVER_LENGTH + (*self.m_struct).token_length as Index }
     }
 
+    /// Number of bytes the message takes for a token of the given length.
+    #[inline]
+    pub fn encoded_length(token_length: usize) -> usize {
+        TERMINATE_DRIVER_LENGTH as usize + token_length
+    }
+
     // Parent Setters
 
     #[inline]
